@@ -85,6 +85,11 @@ def make_cases(seed, tier):
                 ([] if quick else [rng.randrange(5, CD - 1) for _ in range(20)]):
             cases.append(("small-size", b"pw", s, "crypt_rn", sz))
             cases.append(("small-size", b"pw", b"*0", "crypt_rn", sz))
+    # well-formed yescrypt-family settings that ask for what crypt() cannot provide (a ROM, a hash upgrade)
+    for i in range(60 if quick else 1500):
+        m = rng.choice(["yescrypt", "gost_yescrypt"])
+        cases.append(("unsupported-parameter/" + m, gen.gen_phrase(rng, rng.choice([0, 5, 40])),
+                      gen.gen_yes_unsupported(rng, m), rng.choice(entries), "="))
     # random mutations (may succeed or fail: shape only)
     nm = 4000 if quick else 60000
     for i in range(nm):
